@@ -37,18 +37,12 @@ set_option linter.unusedVariables false
 
 /-! ### the excluded classes -/
 
-/-- `removetree` normalises its path before it validates it (`fs/base.py`: `abspath(normpath(dir_path))`,
-    then the walker's `scandir`): on a path that both contains NUL and climbs above the root FTPFS says
-    IllegalBackReference where the reference says InvalidCharsInPath — both conditions hold, `Ref.adm`
-    lists only the one `validatepath` meets first (`ftp_removetree_nul_backref_counterexample`) -/
-def nulBackref : Op → Prop
-  | .removetree p => p.contains '\x00' = true ∧ ∃ e, normpath p = .err e
-  | _ => False
-
 /-- the calls in which FTPFS is known to deviate from the contract: base-class `movedir` into a proper
-    ancestor of the source (`MemRefines.knownDeviation`, shared with MemoryFS and OSFS), and the error
-    CLASS of `removetree` on a path that is invalid twice over -/
-def knownDeviation (op : Op) : Prop := MemRefines.knownDeviation op ∨ nulBackref op
+    ancestor of the source (`MemRefines.knownDeviation`, shared with MemoryFS and OSFS).  (The second class this
+    definition used to have — the error CLASS of the inherited `removetree` on a path that both contains NUL and
+    climbs: it normalised before it validated — is gone since /repo 433aea4,
+    `ftp_removetree_nul_backref_repaired`.) -/
+def knownDeviation (op : Op) : Prop := MemRefines.knownDeviation op
 
 /-! ### from per-operation agreement to the refinement statement -/
 
@@ -129,23 +123,12 @@ theorem ftp_two {cfg : Profile} (t : Node) (h : Hyp cfg t) (op : Op) (p q : Str)
 /-! ### invalid paths and invalid modes: the same failure as the reference -/
 
 theorem ftp_step_invalid1 {cfg : Profile} (t : Node) (h : Hyp cfg t) (op : Op) (p : Str) (e : Err)
-    (hp : op.paths = [p]) (hno : ∀ q m, op ≠ .openbin q m) (hv : Ref.validate p = .err e) (hn : NoCrLf p)
-    (hk : ¬ nulBackref op) :
+    (hp : op.paths = [p]) (hno : ∀ q m, op ≠ .openbin q m) (hv : Ref.validate p = .err e) (hn : NoCrLf p) :
     Ftp.step (exec cfg) cfg.cy ⟨t, false⟩ op = fail ⟨t, false⟩ e := by
   have hfv : Ftp.validate p = .err e := by rw [validate_eq p hn, hv]
   rw [step_open ⟨t, false⟩ h rfl op (by rintro rfl; simp [Op.paths] at hp)]
   cases op with
   | openbin q m => exact absurd rfl (hno _ _)
-  | removetree q =>
-    simp only [Op.paths, List.cons.injEq, and_true] at hp; subst hp
-    rcases QueryLemmas.validate_err q e hv with ⟨he, hnul⟩ | ⟨he, hnp⟩
-    · cases hnp : normpath q with
-      | ok r => simp [opProg, run_mapRes, removetree, hnp, hfv, fail]
-      | err e' =>
-        exfalso
-        exact hk ⟨by simpa using hnul, e', hnp⟩
-    · subst he
-      simp [opProg, run_mapRes, removetree, hnp, fail]
   | move a b o => simp [Op.paths] at hp
   | copy a b o => simp [Op.paths] at hp
   | movedir a b o => simp [Op.paths] at hp
@@ -154,7 +137,7 @@ theorem ftp_step_invalid1 {cfg : Profile} (t : Node) (h : Hyp cfg t) (op : Op) (
   | _ =>
     simp only [Op.paths, List.cons.injEq, and_true] at hp; subst hp
     simp [opProg, run_mapRes, run_bind, withPath, hfv, fail, readbytes, makedir, makedirs, writebytes, appendbytes, openbin,
-      mode_ab, create, touch, setinfo, remove, removedir]
+      mode_ab, create, touch, setinfo, remove, removedir, removetree]
 
 theorem ftp_step_invalid_openbin {cfg : Profile} (t : Node) (h : Hyp cfg t) (p mode : Str) (m : Mode) (e : Err)
     (hm : parseBinMode mode = some m) (hv : Ref.validate p = .err e) (hn : NoCrLf p) :
@@ -224,8 +207,7 @@ theorem ftp_refines_ref (cfg : Profile) (hcf : Conforming cfg) (s : State) (op :
   simp only at hc hd hwf hok
   subst hc
   have h : Hyp cfg t := ⟨hcf, hd, hwf, hok⟩
-  have hk1 : ¬ MemRefines.knownDeviation op := fun x => hk (Or.inl x)
-  have hk2 : ¬ nulBackref op := fun x => hk (Or.inr x)
+  have hk1 : ¬ MemRefines.knownDeviation op := hk
   rcases QueryLemmas.op_cases op with rfl | ⟨p, m, rfl⟩ | ⟨p, hp, hno⟩ | ⟨p, q, hp⟩
   · exact refines_of_eq _ _ _ hd hl rfl
   · have hap : ArgOk cfg p := hargs p (by simp [Op.paths])
@@ -247,7 +229,7 @@ theorem ftp_refines_ref (cfg : Profile) (hcf : Conforming cfg) (s : State) (op :
     cases hv : Ref.validate p with
     | err e =>
       apply refines_of_eq _ _ _ hd hl
-      rw [ftp_step_invalid1 t h op p e hp hno hv hap.1 hk2, QueryLemmas.step_one _ op p rfl hp hno, hv]
+      rw [ftp_step_invalid1 t h op p e hp hno hv hap.1, QueryLemmas.step_one _ op p rfl hp hno, hv]
     | ok cs =>
       have hs : Ref.step ⟨t, false⟩ op = step1 ⟨t, false⟩ cs op := by
         rw [QueryLemmas.step_one _ op p rfl hp hno, hv]
@@ -294,7 +276,7 @@ theorem ftp_failure_truthful_and_harmless (cfg : Profile) (hcf : Conforming cfg)
   (ftp_refines_ref cfg hcf s op hc hd hwf hok hargs hk hl).2.2 e he
 
 /-- a closed FTPFS never sends a command, never changes anything, and every call but `close` fails (a mode
-    error comes first in `openbin`, a climbing path first in `removetree`, as in the code) — against ANY
+    error comes first in `openbin`, as in the code) — against ANY
     server -/
 theorem ftp_closed_is_final (X : Server) (cy : Nat) (s : State) (op : Op) (hc : s.closed = true) (hop : op ≠ .close) :
     (Ftp.step X cy s op).1 = s ∧ (∃ e, (Ftp.step X cy s op).2 = .err e) ∧ Ftp.stepTrace X cy s op = [] := by
@@ -414,7 +396,7 @@ example (mlsd : Bool) : ∃ cfg s op, Conforming cfg ∧ cfg.mlsd = mlsd ∧ s.c
     simp only [Op.paths, List.mem_singleton] at hp
     subst hp
     exact argOk_a _
-  · rintro (h | h) <;> exact h
+  · exact fun h => h
 
 /-! ### outside the hypotheses: what the limits of the protocol and of the listing formats look like
 (and the regression theorem for the one deviation that was the LIBRARY's) -/
@@ -482,14 +464,15 @@ theorem ftp_movedir_ancestor_counterexample :
     fileAt (Ref.step s (.movedir "a".toList "/".toList false)).1.root ["a".toList, "x".toList] = some [1] := by
   decide
 
-/-- `removetree` on a path that is invalid twice over: both fail and nothing changes, but FTPFS (base class:
-    `normpath` before `validatepath`) names the climbing, the reference the NUL — and `Ref.adm` lists only the
-    reference's -/
-theorem ftp_removetree_nul_backref_counterexample :
+/-- REPAIRED (/repo 433aea4; was `ftp_removetree_nul_backref_counterexample`, class only): `removetree` on a path
+    that is invalid twice over (NUL, and climbing above the root) — the inherited `FS.removetree` now validates
+    before it normalises, so FTPFS names the NUL as the reference does, and a closed FTPFS says FilesystemClosed -/
+theorem ftp_removetree_nul_backref_repaired :
     let op : Op := .removetree "\x00/../..".toList
-    (Ftp.step (exec (pyftpdlib true 2026)) 2026 State.empty op).2 = .err .IllegalBackReference ∧
+    (Ftp.step (exec (pyftpdlib true 2026)) 2026 State.empty op).2 = .err .InvalidCharsInPath ∧
     (Ref.step State.empty op).2 = .err .InvalidCharsInPath ∧
-    Err.IllegalBackReference ∉ adm State.empty op ∧ nulBackref op := by
-  refine ⟨by decide, by decide, by decide, by decide, ⟨.IllegalBackReference, by decide⟩⟩
+    (Ftp.step (exec (pyftpdlib true 2026)) 2026 { State.empty with closed := true } (.removetree "..".toList)).2 =
+      .err .FilesystemClosed := by
+  refine ⟨by decide, by decide, by decide⟩
 
 end Fs.FtpRefines
